@@ -149,6 +149,17 @@ def main():
         extra = sorted(x for x in os.listdir(os.path.join(data, "m")) if not x.endswith((".gz", ".bz2", ".xz", ".zip", ".lha", ".Z", ".set", ".nt", ".as", ".NT", ".AS")))
         rng.shuffle(extra)
         mods += ["m/" + x for x in extra[: (6 if tier == "quick" else 80)]]
+        # generated IT modules whose tempo changes by slides (T0x / T1x: the tempo moves on every tick of the row, by steps small enough
+        # that at the low rates the tick size in sample frames often stays the same while the tempo - and with it the time - moves)
+        sys.path.insert(0, os.path.join(V.VERIF, "gen")); import modgen, tempfile
+        gdir = tempfile.mkdtemp(prefix="vp-c13-", dir="/var/tmp")
+        for gi in range(3 if tier == "quick" else 24):
+            song = modgen.random_flow_song(rng, "it", vocab=('speed',), max_orders=3, max_pats=2, density=0.02)
+            song['bpm'] = rng.choice((200, 230, 255, 160)); song['speed'] = rng.choice((3, 6))
+            for pat in song['patterns']:
+                for row in pat:
+                    if rng.random() < 0.35: row[0] = dict(row[0] or {}, fx=('raw', (20, rng.choice((0x01, 0x02, 0x05, 0x11, 0x12, 0x15, 0x00)))))
+            gp = os.path.join(gdir, "slide%02d.it" % gi); open(gp, "wb").write(modgen.WRITERS["it"](song)); mods.insert(2, gp)
         nframes = 240 if tier == "quick" else 1200
         base = (44100, 0, 1, 1, 100, 100)
         configs = [base, (4000, 7, 0, 3, -100, 37), (8000, 1, 2, 0, 0, 0), (11025, 2, 1, 2, 70, 200), (22050, 3, 0, 1, -40, 100),
